@@ -735,10 +735,32 @@ impl Oracle {
                 let _ = hnd.render_report(&mut g, rep.as_ref());
                 let mut n = String::new();
                 let _ = miette::NarratableReportHandler::new().render_report(&mut n, rep.as_ref());
-                (g, n)
+                // the text each label covers in the source the adapter handed to miette
+                let labelled: Vec<Option<String>> = match (rep.labels(), rep.source_code()) {
+                    (Some(ls), Some(sc)) => ls.map(|l| sc.read_span(l.inner(), 0, 0).ok().and_then(|c| String::from_utf8(c.data().to_vec()).ok())).collect(),
+                    _ => Vec::new(),
+                };
+                (g, n, labelled)
             });
             match m {
-                Some((g, n)) => {
+                Some((g, n, labelled)) => {
+                    // the label sits on the text the location refers to: with a byte span in the location (string input)
+                    // the labelled text is the source's own text at that span — whatever stands in front of it
+                    if let Some(loc) = err.location() {
+                        if let (Some(b), Some(len)) = (loc.span().byte_offset(), loc.span().byte_len()) {
+                            let (b, len) = (b as usize, (len as usize).max(1));
+                            if let Some(want) = src.get(b..(b + len).min(src.len())) {
+                                if !want.is_empty() && first_forbidden(want).is_none() && !want.contains('\n') && !want.contains('\r') && labelled.len() == 1 {
+                                    self.checks += 1;
+                                    self.count("miette.label_text_checked");
+                                    if labelled[0].as_deref() != Some(want) {
+                                        self.fail("C17-miette-label-off-target", &format!("channel {entry}/miette/{name}: the label covers {:?}, the location's span holds {want:?}", labelled[0]),
+                                                  &hex(src), &hex(&g), "the label covers the text at the location's byte span");
+                                    }
+                                }
+                            }
+                        }
+                    }
                     self.scan_miette(&format!("{entry}/miette-graphical/{name}"), src, err, &g);
                     self.scan_miette(&format!("{entry}/miette-narratable/{name}"), src, err, &n);
                 }
